@@ -108,6 +108,7 @@ func runC15(env *core.Env, ci any) {
 	env.Sched.Knobs.MaxSteps = 400000
 	env.Sched.Knobs.Horizon = 12 * time.Hour
 	sut.Install(env)
+	env.AcctInexact = true // (C13 mode) clients here abandon exchanges on purpose: only gauges and inequalities are judged
 	pw := newPolWorld(env, &polCase{Conns: make([]polConn, len(c.Peers)+1)})
 	ca := pw.ca
 	idle, hdr := time.Duration(c.IdleS)*time.Second, time.Duration(c.HeaderS)*time.Second
